@@ -10,15 +10,15 @@
 #include "src/base64.c"
 #include "stubs_stdio.h"
 #ifndef B64_MAXLEN
-#define B64_MAXLEN 10
+#define B64_MAXLEN 6
 #endif
 #ifndef B64_MAXBIN
-#define B64_MAXBIN 7
+#define B64_MAXBIN 4
 #endif
 typedef struct { uint8_t s[B64_MAXLEN]; int len, k; } b64_in;
 DECL_INPUT(b64_in);
 
-//@job name=base64_decode_chunking props=C14 unwind=70 timeout=1800 bounded=text<=10-characters,one-split layer=bounded-symbolic-execution-of-the-real-functions
+//@job name=base64_decode_chunking props=C14 unwind=9 timeout=1800 bounded=text<=6-characters,one-split layer=bounded-symbolic-execution-of-the-real-functions
 void h_base64_decode_chunking(void)
 {
 	INPUT(b64_in, T); ASSUME(T.len >= 2 && T.len <= B64_MAXLEN && T.k >= 1 && T.k < T.len);
@@ -36,7 +36,7 @@ void h_base64_decode_chunking(void)
 		if (ra >= 0 && r2 >= 0) {
 			CHECK(ra == r2, "same end-of-content status");
 			CHECK(la == l1 + l2, "same number of decoded bytes");
-			for (i = 0; i < 9; i++) CHECK(i >= la || oa[i] == ob[i], "same decoded bytes");
+			for (i = 0; i < 6; i++) CHECK(i >= la || oa[i] == ob[i], "same decoded bytes");
 			CHECK(a.num == b.num, "same number of buffered characters");
 			CANARY("compared");
 		}
@@ -46,7 +46,7 @@ void h_base64_decode_chunking(void)
 
 typedef struct { uint8_t m[B64_MAXBIN]; int len; } bin_in;
 DECL_INPUT(bin_in);
-//@job name=base64_roundtrip props=C14 unwind=70 timeout=1800 bounded=binary<=7-bytes layer=bounded-symbolic-execution-of-the-real-functions
+//@job name=base64_roundtrip props=C14 unwind=9 timeout=1800 bounded=binary<=4-bytes layer=bounded-symbolic-execution-of-the-real-functions
 void h_base64_roundtrip(void)
 {
 	INPUT(bin_in, M); ASSUME(M.len >= 1 && M.len <= B64_MAXBIN);
